@@ -11,7 +11,8 @@ LEAF_FNS = ["has_group", "first_entry", "first_definition", "setGroupList", "cpy
 THEOREMS = ["Econf.C03_lookup", "Econf.C03_nothing_else", "Econf.C03_no_duplicates", "Econf.C03_base_order",
             "Econf.C03_new_keys_after_base", "Econf.C03_new_groups_last", "Econf.C03_groupless_first", "Econf.C03_bound",
             "Econf.C03_object", "Econf.C03_merge_spec", "Econf.Struct.api_frames",
-            "LeafKf.C_first_entry", "LeafKf.C_has_group", "LeafKf.first_definition_exec", "LeafKf.first_entry_shape", "LeafKf.has_group_shape"]
+            "LeafKf.C_first_entry", "LeafKf.C_has_group", "LeafKf.first_definition_exec", "LeafKf.first_entry_shape", "LeafKf.has_group_shape",
+            "LeafKf.C_setGroupList", "LeafKf.setGroupList_new", "LeafKf.setGroupList_found", "LeafKf.setGroupList_shape"]
 RULE = ("pairs of entry lists over {group-less,A,B}x{x,y}: exhaustive up to the tier's length bound, built by parsing and by the setters "
         "on all constructor kinds, plus random larger pairs, pairs with valueless definitions, and pairs in which an input is the result of "
         "econf_readDirs or a member of a history; non-trivial = merge succeeded and both sides non-empty or one side an "
@@ -45,6 +46,10 @@ def pairs(maxlen, rng=None, sample=None):
 
 def random_pair(rng, sid):
     groups = [None, b"A", b"B", b"C", b"D"]
+    if rng.random() < 0.3:
+        # section names that look like the internal marker of the group-less keys ("_none_") to a sloppy comparison: other
+        # spellings of it, a prefix, and names with the same djb2 hash (lib/helpers.c hashstring, KEY_FILE_NULL_VALUE_HASH)
+        groups = groups + [b"_nooD_", b"_oNne_", b"_NONE_", b"_none", b"_none__"]
     keys = [b"k%d" % i for i in range(6)]
 
     def lst():
